@@ -81,20 +81,32 @@ def get_broadcast_change_iter(modified_settings, is_cancel=False):
                                    key=lambda x: (x[0], x[1])):
         # sorted by (point, namespace)
         point, namespace, setting = modified_setting
-        value = setting
-        keys_str = ""
-        while isinstance(value, dict):
-            key, value = next(iter(value.items()))
-            if isinstance(value, dict):
-                keys_str += "[" + key + "]"
-            else:
-                keys_str += key
-                yield {
-                    "change": change,
-                    "point": point,
-                    "namespace": namespace,
-                    "key": keys_str,
-                    "value": str(value)}
+        if not isinstance(setting, dict):
+            continue
+        # A setting may hold several items (e.g. as submitted through the
+        # GraphQL API): report every one of them.
+        for key, value in _iter_setting_items(setting):
+            yield {
+                "change": change,
+                "point": point,
+                "namespace": namespace,
+                "key": key,
+                "value": str(value)}
+
+
+def _iter_setting_items(setting, keys_str=""):
+    """Yield (key, value) for each item of a (nested) setting dict.
+
+    Examples:
+        >>> list(_iter_setting_items({'a': {'b': 1, 'c': {'d': 2}}, 'e': 3}))
+        [('[a]b', 1), ('[a][c]d', 2), ('e', 3)]
+
+    """
+    for key, value in setting.items():
+        if isinstance(value, dict):
+            yield from _iter_setting_items(value, keys_str + "[" + key + "]")
+        else:
+            yield keys_str + key, value
 
 
 def get_broadcast_change_report(modified_settings, is_cancel=False):
